@@ -296,6 +296,25 @@ class MyStr(str):
   pass
 
 
+class Shape:
+  def __init__(self, n=0):
+    self.n = n
+
+  @classmethod
+  def regular(cls, n=3):
+    return cls(n)
+
+  def describe(self, prefix=''):
+    return prefix + type(self).__name__
+
+
+class Triangle(Shape):
+  pass
+
+
+SHAPE_OBJ = Shape(5)
+
+
 class Plain:
   """A dict-based object registered with register_dict_based_object."""
   _fsim_plain = True
